@@ -5,7 +5,7 @@ from pbt.props import _e1
 
 ID = 'C04'
 LEVEL = 'exploration'
-RULE = ('E1 histories with limits drawn per affinity name on any subset of '
+RULE = ('70% E1 histories (pure scheduler API) and 30% E2 histories (Master + ZkBackend + masterapi on the fake ZooKeeper, incl. reload/restore/restart paths of loader.py); E1 histories with limits drawn per affinity name on any subset of '
         '{server, rack, pod, cell}, several instances per affinity and '
         'capacity pressure. After every cycle the true per-node counts '
         '(recomputed from server.apps) are compared with the declared limits '
@@ -16,7 +16,7 @@ ASSUMPTIONS = [
     'instances of one affinity share their limits (drawn per affinity name)',
     'virtual clock replaces treadmill.scheduler.time',
 ]
-TRUSTED = ['pbt/cellsim.py', 'pbt/oracles.py']
+TRUSTED = ['pbt/cellsim.py', 'pbt/mastersim.py', 'pbt/fakezk.py', 'pbt/oracles.py']
 BUDGET = {'quick': 6000, 'thorough': 160000}
 
 PROFILE = {
@@ -26,8 +26,11 @@ PROFILE = {
 }
 
 
+E2_PROFILE = {'max_pods': 2, 'max_racks': 3, 'weights': {'app': 14, 'rmsrv': 2, 'srv': 2, 'prio': 2, 'reparent': 3, 'cellev': 3, 'restart': 2, 'resize': 2}, 'lease': False}
+
+
 def strategy(tier):
-    return gen.cell_case(PROFILE)
+    return gen.tagged(PROFILE, E2_PROFILE, e2_share=3)
 
 
 def watch(sim, info, flags):
